@@ -46,7 +46,7 @@ func newGrammar() *grammar {
 
 func hugeLen() int {
 	if thorough {
-		return 70000
+		return 20000
 	}
 	return 3000
 }
